@@ -117,6 +117,24 @@ void derivative_sequences(vf::Ctx& c, int depth, int form, int firstOp) {
   }
 }
 
+
+// one object re-initialised N times between two reads of the derivative matrices, for every N up to 600 and a few larger ones (counters that wrap)
+void many_inits(vf::Ctx& c) {
+  std::vector<int> counts; for (int n = 1; n <= 600; ++n) counts.push_back(n); for (int n : {1023, 1024, 1025, 4096, 65535, 65536, 65537}) counts.push_back(n);
+  V3 t(1, -2, 3);
+  for (int first = 0; first < 2; ++first) for (int n : counts) {
+    SmartRotation3D obj(0.3, -0.2, 0.9);
+    if (first) { (void)obj.dRdAngleAroundXAxis(); (void)obj.dRTdAngles(t); }   // with / without a first read
+    V3 a;
+    for (int i = 1; i <= n; ++i) { a = V3(0.3 + 0.001 * (i % 97), -0.2 + 0.002 * (i % 89), 0.9 - 0.0015 * (i % 83)); if (i % 2) obj.init(a); else obj.init(a[0], a[1], a[2]); }
+    c.transitions(n); c.eval(); c.nontrivial();
+    SmartRotation3D fresh(a);
+    bool same = obj.R() == fresh.R() && obj.dRdAngleAroundXAxis() == fresh.dRdAngleAroundXAxis() && obj.dRdAngleAroundYAxis() == fresh.dRdAngleAroundYAxis() && obj.dRdAngleAroundZAxis() == fresh.dRdAngleAroundZAxis() && obj.dRTdAngles(t) == fresh.dRTdAngles(t);
+    c.obs(obj.dRdAngleAroundZAxis()(0, 0));
+    if (!same) { c.violation("SmartRotation3D.derivatives.dependOnHistory", vf::JO().str("explorer", "many inits").i("inits_between_reads", n).b("read_before", first).done(), vf::JO().num("dRdX_diff", (obj.dRdAngleAroundXAxis() - fresh.dRdAngleAroundXAxis()).norm()).num("R_diff", (obj.R() - fresh.R()).norm()).done()); break; }
+  }
+}
+
 // ---- B: pose covariance ------------------------------------------------------------------------------------------
 std::vector<M6> cov_catalogue() {
   std::vector<M6> v;
@@ -190,7 +208,7 @@ template <class S> void ls_cov(vf::Ctx& c, const char* tname) {
   using Mat = Eigen::Matrix<S, Eigen::Dynamic, Eigen::Dynamic>; using Vec = Eigen::Matrix<S, Eigen::Dynamic, 1>;
   using LM = Eigen::Matrix<long double, Eigen::Dynamic, Eigen::Dynamic>;
   std::vector<S> scales = std::is_same<S, double>::value ? std::vector<S>{(S)1, (S)(1.0 / 131072), (S)1024} : std::vector<S>{(S)1, (S)(1.0 / 64), (S)64};
-  for (S jscale : scales) for (int p = 1; p <= 6; ++p) for (int n : {p, p + 3, 40}) for (int solver = 0; solver < 2; ++solver) for (int prec = 0; prec < 3; ++prec) {
+  for (S jscale : scales) for (int p = 1; p <= 6; ++p) for (int n : {p, p + 3, 40, 64, 255, 256, 1024, 2048}) for (int solver = 0; solver < 2; ++solver) for (int prec = 0; prec < 3; ++prec) {
     // two problems in a row on one solver object: the covariance must belong to the last one solved
     LeastSquares<S> ls(p);
     Mat Jk; Vec diag(p);
@@ -227,7 +245,7 @@ template <class S> void ls_cov(vf::Ctx& c, const char* tname) {
 
 }  // namespace
 
-uint64_t vf_ncases(const std::string& tier) { g_th = tier == "thorough"; return rollyaw().size() + transforms().size() + 2 + 45; }
+uint64_t vf_ncases(const std::string& tier) { g_th = tier == "thorough"; return rollyaw().size() + transforms().size() + 2 + 45 + 1; }
 
 void vf_run(uint64_t idx, const std::string& tier, vf::Ctx& c) {
   g_th = tier == "thorough";
@@ -236,7 +254,8 @@ void vf_run(uint64_t idx, const std::string& tier, vf::Ctx& c) {
   else if (idx < nr + nt) pose_cov(c, idx - nr);
   else if (idx == nr + nt) ls_cov<double>(c, "double");
   else if (idx == nr + nt + 1) ls_cov<float>(c, "float");
-  else { int k = (int)(idx - nr - nt - 2); derivative_sequences(c, g_th ? 7 : 4, k / 15, k % 15); }
+  else if (idx < nr + nt + 2 + 45) { int k = (int)(idx - nr - nt - 2); derivative_sequences(c, g_th ? 7 : 4, k / 15, k % 15); }
+  else many_inits(c);
 }
 
 std::string vf_describe(const std::string& tier) {
@@ -245,9 +264,10 @@ std::string vf_describe(const std::string& tier) {
   o.vec("roll_yaw", rollyaw()).vec("pitch", pitches());
   o.str("finite_differences", "central differences with Richardson extrapolation (h=1e-4, 5e-5) of the library's own R() and operator*(Affine3d,Pose3D); tolerance 1e-9 absolute (rotation derivatives), 1e-8 relative (covariances)");
   o.str("derivative_sequences", std::string("one SmartRotation3D (default-constructed / constructed from a vector / from three scalars) through every sequence of ") + (g_th ? "7" : "4") + " operations out of 15 (init with 6 angle triples in both overloads, read of all derivative matrices, assignment to another long-lived object, moved-in copy) followed by a read; every read bit-equal to a fresh object at the current angles");
+  o.str("many_inits", "one object re-initialised N times between two reads of the derivative matrices for every N in 1..600 and {1023,1024,1025,4096,65535,65536,65537}, with and without a first read; bit-equal to a fresh object");
   o.str("transform_catalogue", "identity, yaw, roll, pitch, two generic axes, the 24 rotations of the cube, a yaw composed with a tilt of {1e-9,1e-6,3e-4,8e-4,1e-2} rad, rotations of 1e-7 and 2e-4 rad about a generic axis; each with and without translation");
   o.u("transforms", transforms().size()).u("attitudes", attitudes().size()).u("covariances", cov_catalogue().size());
-  o.str("least_squares", "estimate size 1..6, data size {p,p+3,40}, Cholesky and SVD, preconditioner {none, diag(0.5+j)+offset, diag(1e3/1e-3)+offset}, second problem on a reused solver; design matrix magnitude {1, 2^-17, 2^10} (float {1, 2^-6, 2^6}); float and double; tolerance 16 eps kappa(J)^2");
+  o.str("least_squares", "estimate size 1..6, data size {p,p+3,40,64,255,256,1024,2048}, Cholesky and SVD, preconditioner {none, diag(0.5+j)+offset, diag(1e3/1e-3)+offset}, second problem on a reused solver; design matrix magnitude {1, 2^-17, 2^10} (float {1, 2^-6, 2^6}); float and double; tolerance 16 eps kappa(J)^2");
   return o.done();
 }
 
